@@ -651,9 +651,10 @@ func (w *c08Worker) observe(pos int, afterSweep bool) {
 			}
 		}
 	}
-	for _, to := range rd.decoysTimeouts {
+	for tkey, to := range rd.decoysTimeouts {
 		nrec++
-		if k, ok := u.byEntry[to.decoy][to.identifier]; ok {
+		toDecoy, toID := vTimeoutOf(to, tkey)
+		if k, ok := u.byEntry[toDecoy][toID]; ok {
 			if covered&(1<<uint(k)) != 0 {
 				doubleRecs++
 			}
@@ -1029,7 +1030,8 @@ func (w *c08Worker) digest() string {
 		}
 	}
 	for idx, to := range rd.decoysTimeouts {
-		parts = append(parts, fmt.Sprintf("T %x -> %s %x used=%v age=%s", idx, to.decoy, to.identifier, to.status == regStatusUsed,
+		toDecoy, toID := vTimeoutOf(to, idx)
+		parts = append(parts, fmt.Sprintf("T %x -> %s %x used=%v age=%s", idx, toDecoy, toID, to.status == regStatusUsed,
 			time.Since(to.registrationTime).Round(time.Minute)))
 	}
 	rd.m.RUnlock()
@@ -1122,10 +1124,11 @@ func (w *c08Worker) witness(v c08Viol) interface{} {
 	}
 	for idx, to := range rd.decoysTimeouts {
 		n := "?"
-		if k, ok := u.byEntry[to.decoy][to.identifier]; ok {
+		toDecoy, toID := vTimeoutOf(to, idx)
+		if k, ok := u.byEntry[toDecoy][toID]; ok {
 			n = u.keys[k].name
 		}
-		recs = append(recs, fmt.Sprintf("record[%s…%s] -> %s age=%s used=%v", kit.HexN([]byte(idx[:4]), 4), to.decoy, n,
+		recs = append(recs, fmt.Sprintf("record[%s…%s] -> %s age=%s used=%v", kit.HexN([]byte(idx[:4]), 4), toDecoy, n,
 			time.Since(to.registrationTime).Round(time.Minute), to.status == regStatusUsed))
 	}
 	rd.m.RUnlock()
